@@ -5,6 +5,10 @@
 //	<scratch>/c08tree_<pid>/root/f<n>                     one file of length n for every n in case.tree.lens
 //	<scratch>/c08tree_<pid>/root/d/index.html             length case.tree.idxlen
 //	<scratch>/c08tree_<pid>/root/e/                       empty directory
+//	<scratch>/c08tree_<pid>/root/a/index.html             length case.tree.alen ("a" is also a virtual host name)
+//	<scratch>/c08tree_<pid>/root/m/g000 ...               case.tree.many empty files (generated index page > 8 KiB)
+//	<scratch>/c08tree_<pid>/index.html                    OUTSIDE the root, length case.tree.pidxlen (file "OUTIDX"):
+//	                                                      what "index file of the parent of the root" would serve
 //
 // File contents are provenance patterns (see pat()): every byte of a "short" file (<= 8 bytes) is unique in the
 // tree, every byte of a "long" file identifies its file and every 4 consecutive bytes identify the offset, and no
@@ -61,18 +65,22 @@ type Req struct {
 	Tgt    string `json:"tgt"`
 	Method string `json:"method"`
 	Range  Range  `json:"range"`
-	Ae     bool   `json:"ae"` // send "Accept-Encoding: gzip"
+	Ae     bool   `json:"ae"`   // send "Accept-Encoding: gzip"
+	Host   string `json:"host"` // Host header
 }
 
 type Tree struct {
-	Lens   []int `json:"lens"`
-	IdxLen int   `json:"idxlen"`
-	OutLen int   `json:"outlen"`
+	Lens    []int `json:"lens"`
+	IdxLen  int   `json:"idxlen"`
+	OutLen  int   `json:"outlen"`
+	ALen    int   `json:"alen"`
+	PIdxLen int   `json:"pidxlen"`
+	Many    int   `json:"many"`
 }
 
 type Case struct {
 	ID       int    `json:"id"`
-	Route    string `json:"route"` // fs | fsrw | file
+	Route    string `json:"route"` // fs | fsrw | file | vhost
 	Abr      bool   `json:"abr"`
 	Compress bool   `json:"compress"`
 	Idx      bool   `json:"idx"`
@@ -121,14 +129,30 @@ func patLong(li, k int) byte {
 	return byte(0x80 + 32*li + 8*ph + (q>>(3*uint(3-ph)))&7)
 }
 
-func buildTree(scratch string, specs map[string]int, order []string) (*tree, error) {
+// where a tree file lives on disk
+func (t *tree) diskPath(name string) string {
+	switch name {
+	case "OUT":
+		return filepath.Join(t.dir, sentinelName)
+	case "OUTIDX":
+		return filepath.Join(t.dir, "index.html")
+	}
+	return filepath.Join(t.root, filepath.FromSlash(name))
+}
+
+func buildTree(scratch string, specs map[string]int, order []string, many int) (*tree, error) {
 	dir, err := os.MkdirTemp(scratch, "c08tree_")
 	if err != nil {
 		return nil, err
 	}
 	t := &tree{dir: dir, root: filepath.Join(dir, "root")}
-	for _, d := range []string{t.root, filepath.Join(t.root, "d"), filepath.Join(t.root, "e")} {
-		if err := os.MkdirAll(d, 0o755); err != nil {
+	for _, d := range []string{"", "d", "e", "a", "m"} {
+		if err := os.MkdirAll(filepath.Join(t.root, d), 0o755); err != nil {
+			return nil, err
+		}
+	}
+	for i := 0; i < many; i++ {
+		if err := os.WriteFile(filepath.Join(t.root, "m", fmt.Sprintf("g%03d", i)), nil, 0o644); err != nil {
 			return nil, err
 		}
 	}
@@ -170,11 +194,7 @@ func buildTree(scratch string, specs map[string]int, order []string) (*tree, err
 			}
 			nlong++
 		}
-		p := filepath.Join(t.root, filepath.FromSlash(name))
-		if name == "OUT" {
-			p = filepath.Join(dir, sentinelName)
-		}
-		if err := os.WriteFile(p, f.data, 0o644); err != nil {
+		if err := os.WriteFile(t.diskPath(name), f.data, 0o644); err != nil {
 			return nil, err
 		}
 		t.files = append(t.files, f)
@@ -182,11 +202,7 @@ func buildTree(scratch string, specs map[string]int, order []string) (*tree, err
 	// files must look old and never change: fixed mtime
 	old := time.Date(2020, 1, 2, 3, 4, 5, 0, time.UTC)
 	for _, f := range t.files {
-		p := filepath.Join(t.root, filepath.FromSlash(f.name))
-		if f.name == "OUT" {
-			p = filepath.Join(dir, sentinelName)
-		}
-		os.Chtimes(p, old, old)
+		os.Chtimes(t.diskPath(f.name), old, old)
 	}
 	return t, nil
 }
@@ -305,7 +321,7 @@ func runCase(tr *vtrace.Writer, t *tree, c *Case, cacheDur time.Duration) {
 	e := newEngine()
 	prefix := ""
 	switch c.Route {
-	case "fs", "fsrw":
+	case "fs", "fsrw", "vhost":
 		fs := &app.FS{Root: t.root, AcceptByteRange: c.Abr, Compress: c.Compress, GenerateIndexPages: c.Gen,
 			CacheDuration: cacheDur}
 		if c.Idx {
@@ -315,6 +331,9 @@ func runCase(tr *vtrace.Writer, t *tree, c *Case, cacheDur time.Duration) {
 			fs.PathRewrite = app.NewPathSlashesStripper(1)
 			prefix = "/s"
 			e.StaticFS("/s", fs)
+		} else if c.Route == "vhost" {
+			fs.PathRewrite = app.NewVHostPathRewriter(0) // serves <root>/<Host header><path>
+			e.StaticFS("/", fs)
 		} else {
 			e.StaticFS("/", fs)
 		}
@@ -344,7 +363,7 @@ func echo(t *tree, i int, rq Req) vtrace.Rec {
 		}
 	}
 	return vtrace.Rec{"i": i + 1, "path": rq.Path, "method": rq.Method, "rstr": rq.Range.Str, "rkind": rq.Range.Kind,
-		"ae": rq.Ae, "tgt": rq.Tgt, "flen": flen}
+		"ae": rq.Ae, "host": rq.Host, "tgt": rq.Tgt, "flen": flen}
 }
 
 func serveOne(tr *vtrace.Writer, t *tree, e *route.Engine, c *Case, i int, prefix string, rq Req) {
@@ -358,7 +377,7 @@ func serveOne(tr *vtrace.Writer, t *tree, e *route.Engine, c *Case, i int, prefi
 	ctx := e.NewContext()
 	ctx.Request.SetRequestURI(prefix + rq.Path)
 	ctx.Request.Header.SetMethod(rq.Method)
-	ctx.Request.SetHost("h")
+	ctx.Request.SetHost(rq.Host)
 	if rq.Range.Kind != "none" {
 		ctx.Request.Header.Set("Range", rq.Range.Str)
 	}
@@ -438,6 +457,7 @@ func main() {
 	var all []*Case
 	specs := map[string]int{}
 	var order []string
+	many := 0
 	add := func(name string, n int) {
 		if old, ok := specs[name]; ok {
 			if old != n {
@@ -468,9 +488,16 @@ func main() {
 		}
 		add("d/index.html", c.Tree.IdxLen)
 		add("OUT", c.Tree.OutLen)
+		add("a/index.html", c.Tree.ALen)
+		add("OUTIDX", c.Tree.PIdxLen)
+		if many != 0 && many != c.Tree.Many {
+			fmt.Fprintln(os.Stderr, "cases disagree on tree.many")
+			os.Exit(2)
+		}
+		many = c.Tree.Many
 		all = append(all, c)
 	}
-	t, err := buildTree(*scratch, specs, order)
+	t, err := buildTree(*scratch, specs, order, many)
 	if err != nil {
 		fmt.Fprintln(os.Stderr, "cannot build tree:", err)
 		os.Exit(2)
